@@ -59,6 +59,20 @@ CLAIMED = {
         "exempt from the swap symmetry (LAPACK rounding is not sign-symmetric and is amplified).",
         "4/C05",
     ),
+    "C16": (
+        "Hypothesis-generated call histories (stateful, model-based: the model of every step is the "
+        "same call issued first in a pristine forked process), invariant checked after every step; "
+        "reordering of independent calls",
+        "Histories of up to four parameterised operations on shared solver / regulariser / Anderson / "
+        "distance objects (incl. the library's module-level default solver and update_params in "
+        "between) are generated and shrunk as one value; after every step the result must be "
+        "bit-identical to the same call made first in a process that has imported darsia and never "
+        "used it. This reaches exactly the defect class (values cached on first use, shared default "
+        "instances, parameters mutated by a call) that single-call tests cannot.",
+        "pristine process = fork of an import-only process (validated design-time against real fresh "
+        "interpreters); darsia.CG is unusable with the installed scipy and left out.",
+        "4/C16",
+    ),
     "C06": (
         "exhaustive shape enumeration + Hypothesis-generated grids vs an independent incidence model "
         "(net outflow, adjointness, interpolation, averaging laws)",
